@@ -24,37 +24,37 @@ type C17Case struct {
 
 // copyRoots lists a zero value of every schema type that has a Copy method.
 var copyRoots = map[string]reflect.Type{
-	"*BodySchema":             reflect.TypeOf(&schema.BodySchema{}),
-	"*BlockSchema":            reflect.TypeOf(&schema.BlockSchema{}),
-	"*AttributeSchema":        reflect.TypeOf(&schema.AttributeSchema{}),
-	"*LabelSchema":            reflect.TypeOf(&schema.LabelSchema{}),
-	"*BlockAddrSchema":        reflect.TypeOf(&schema.BlockAddrSchema{}),
-	"*AttributeAddrSchema":    reflect.TypeOf(&schema.AttributeAddrSchema{}),
-	"*BlockAsTypeOf":          reflect.TypeOf(&schema.BlockAsTypeOf{}),
-	"*BodyExtensions":         reflect.TypeOf(&schema.BodyExtensions{}),
-	"*DocsLink":               reflect.TypeOf(&schema.DocsLink{}),
-	"*Target":                 reflect.TypeOf(&schema.Target{}),
-	"*PathTarget":             reflect.TypeOf(&schema.PathTarget{}),
-	"*FunctionSignature":      reflect.TypeOf(&schema.FunctionSignature{}),
-	"*Targetable":             reflect.TypeOf(&schema.Targetable{}),
-	"*ReferenceAddrSchema":    reflect.TypeOf(&schema.ReferenceAddrSchema{}),
-	"ImpliedOrigin":           reflect.TypeOf(schema.ImpliedOrigin{}),
-	"Address":                 reflect.TypeOf(schema.Address{}),
-	"ObjectAttributes":        reflect.TypeOf(schema.ObjectAttributes{}),
-	"AnyExpression":           reflect.TypeOf(schema.AnyExpression{}),
-	"Keyword":                 reflect.TypeOf(schema.Keyword{}),
-	"List":                    reflect.TypeOf(schema.List{}),
-	"Set":                     reflect.TypeOf(schema.Set{}),
-	"Map":                     reflect.TypeOf(schema.Map{}),
-	"Tuple":                   reflect.TypeOf(schema.Tuple{}),
-	"Object":                  reflect.TypeOf(schema.Object{}),
-	"OneOf":                   reflect.TypeOf(schema.OneOf{}),
-	"Reference":               reflect.TypeOf(schema.Reference{}),
-	"LiteralType":             reflect.TypeOf(schema.LiteralType{}),
-	"LiteralValue":            reflect.TypeOf(schema.LiteralValue{}),
-	"TypeDeclaration":         reflect.TypeOf(schema.TypeDeclaration{}),
-	"lang.Address":            reflect.TypeOf(lang.Address{}),
-	"lang.CompletionHooks":    reflect.TypeOf(lang.CompletionHooks{}),
+	"*BodySchema":                 reflect.TypeOf(&schema.BodySchema{}),
+	"*BlockSchema":                reflect.TypeOf(&schema.BlockSchema{}),
+	"*AttributeSchema":            reflect.TypeOf(&schema.AttributeSchema{}),
+	"*LabelSchema":                reflect.TypeOf(&schema.LabelSchema{}),
+	"*BlockAddrSchema":            reflect.TypeOf(&schema.BlockAddrSchema{}),
+	"*AttributeAddrSchema":        reflect.TypeOf(&schema.AttributeAddrSchema{}),
+	"*BlockAsTypeOf":              reflect.TypeOf(&schema.BlockAsTypeOf{}),
+	"*BodyExtensions":             reflect.TypeOf(&schema.BodyExtensions{}),
+	"*DocsLink":                   reflect.TypeOf(&schema.DocsLink{}),
+	"*Target":                     reflect.TypeOf(&schema.Target{}),
+	"*PathTarget":                 reflect.TypeOf(&schema.PathTarget{}),
+	"*FunctionSignature":          reflect.TypeOf(&schema.FunctionSignature{}),
+	"*Targetable":                 reflect.TypeOf(&schema.Targetable{}),
+	"*ReferenceAddrSchema":        reflect.TypeOf(&schema.ReferenceAddrSchema{}),
+	"ImpliedOrigin":               reflect.TypeOf(schema.ImpliedOrigin{}),
+	"Address":                     reflect.TypeOf(schema.Address{}),
+	"ObjectAttributes":            reflect.TypeOf(schema.ObjectAttributes{}),
+	"AnyExpression":               reflect.TypeOf(schema.AnyExpression{}),
+	"Keyword":                     reflect.TypeOf(schema.Keyword{}),
+	"List":                        reflect.TypeOf(schema.List{}),
+	"Set":                         reflect.TypeOf(schema.Set{}),
+	"Map":                         reflect.TypeOf(schema.Map{}),
+	"Tuple":                       reflect.TypeOf(schema.Tuple{}),
+	"Object":                      reflect.TypeOf(schema.Object{}),
+	"OneOf":                       reflect.TypeOf(schema.OneOf{}),
+	"Reference":                   reflect.TypeOf(schema.Reference{}),
+	"LiteralType":                 reflect.TypeOf(schema.LiteralType{}),
+	"LiteralValue":                reflect.TypeOf(schema.LiteralValue{}),
+	"TypeDeclaration":             reflect.TypeOf(schema.TypeDeclaration{}),
+	"lang.Address":                reflect.TypeOf(lang.Address{}),
+	"lang.CompletionHooks":        reflect.TypeOf(lang.CompletionHooks{}),
 	"lang.SemanticTokenModifiers": reflect.TypeOf(lang.SemanticTokenModifiers{}),
 }
 
